@@ -95,7 +95,9 @@ def run(ctx):
             name, text, exp, ncell = c
             return c, engines.observe(plain, sc.sub("nest/" + name), {"main.nano": text}, vm=False, verbose=True)
 
-        for (name, text, exp, ncell), o in pmap(do_nest, nesting_programs(shadow_driven=True)):
+        from .. import tables
+        bt = [t[:4] for t in tables.builtin_tables(shadow_driven=True)]
+        for (name, text, exp, ncell), o in pmap(do_nest, nesting_programs(shadow_driven=True) + bt):
             if not o.built:
                 ctx.violation("group|%s|build" % name, "grouping table %s does not compile: %s" % (name, engines.classify_nanoc_failure(o.nanoc)),
                               {"main.nano": text, "nanoc.stderr": o.nanoc.err, "nanoc.stdout": o.nanoc.out})
@@ -113,11 +115,14 @@ def run(ctx):
                 continue
             group_cells += ncell
             for a, b, w in [(a, b, w) for a, b, w in zip(il, nl_, exp.splitlines()) if a != b][:50]:
+                if name.startswith("bt_"):
+                    ctx.violation("btable|%s" % w.split()[0], "builtin table cell '%s': evaluator printed '%s', binary printed '%s'" % (w, a, b), {"main.nano": text})
+                    continue
                 form, outer, inner, pos, t = w.split()[:5]
                 ctx.violation("group|%s|%s|%s|%s" % (form, outer, inner, pos),
                               "grouping: %s form, outer %s, inner %s (position %s), operands %s: evaluator printed '%s', binary printed '%s' (specification: '%s')" % (
                                   form, outer, inner, pos, NEST_TRIPLES[int(t)], a, b, w), {"main.nano": text})
-        ctx.require(group_cells > 1000, "grouping tables incomplete (%d cells)" % group_cells)
+        ctx.require(group_cells > 3500, "grouping / builtin tables incomplete (%d cells)" % group_cells)
 
         # ---- sweep ----------------------------------------------------------------------------
         n = ctx.n(200, 4000)
